@@ -97,4 +97,89 @@ NewRecordStyled(A, inds, eols) ==
                      /\ \A j \in entryLines : j = f \/ StartsWith(A[j].text, ind \o ind)
 
 HeadlineOf(A) == LET nb == {j \in 1..Len(A) : A[j].text # ""} IN A[CHOOSE j \in nb : \A j2 \in nb : j <= j2].text
+(***************************************************************************)
+(* The predicates per command                                               *)
+(***************************************************************************)
+(* where the entry a command rewrites sits in the file before *)
+Loc(PP, t, i) == LET b == PP.blocks[t]  e == PP.recs[t].entries[i] IN
+                 [f |-> b.sigFirst + e.first - 1, la |-> b.sigFirst + e.last - 1, e |-> e]
+
+FrameOK(cmd, M, PP, P, Q) ==
+    CASE cmd.op \in {"track", "start", "create"} -> FrameAppend(P, Q)
+      [] cmd.op = "pause" /\ ~cmd.extend -> FrameAppend(P, Q)
+      [] cmd.op = "pause" /\ cmd.extend ->
+            LET lc == Loc(PP, M.t, M.i) IN
+            FrameReplace(P, Q, lc.f, lc.f, lc.e.valFrom, lc.e.valTo, FALSE, Len(P), Len(P)) /\ Len(Q) = Len(P)
+      [] cmd.op = "stop" ->
+            LET lc == Loc(PP, M.t, M.i) IN
+            FrameReplace(P, Q, lc.f, lc.la, lc.e.qFrom, lc.e.qTo, TRUE, lc.la, lc.la)
+      [] cmd.op = "switch" ->
+            LET lc == Loc(PP, M.t, M.i) IN
+            FrameReplace(P, Q, lc.f, lc.la, lc.e.qFrom, lc.e.qTo, FALSE, lc.la, Len(P)) /\ Len(Q) > Len(P)
+
+(* the candidate blocks of added lines: when an added line equals a neighbouring line the   *)
+(* decomposition is not unique, and a style predicate holds if it holds for some candidate *)
+AddedBlocks(P, Q) == {SubSeq(Q, k + 1, k + Len(Q) - Len(P)) : k \in InsPoints(P, Q)}
+(* for stop / switch: the lines added after the rewritten entry *)
+AddedAfterReplace(P, Q, lc, kmax) ==
+    LET m == Len(Q) - Len(P)
+        ks == {k \in lc.la..kmax :
+                 /\ \A i \in (lc.la + 1)..k : Q[i] = P[i] \/ SameButEol(P[i], Q[i])
+                 /\ \A i \in (k + 1)..Len(P) : Q[i + m] = P[i]}
+    IN  {SubSeq(Q, k + 1, k + m) : k \in ks}
+
+ClockAllowed(cmd, cfg, PP, t) ==
+    IF cmd.time # "" THEN {ParseTime(cmd.time).h12}
+    ELSE IF cfg.timeconv = "24h" THEN {FALSE}
+    ELSE IF cfg.timeconv = "12h" THEN {TRUE}
+    ELSE Allowed(ExClock, PP, t, FALSE)
+DashesAllowed(cmd, cfg, PP) ==
+    IF cmd.dsel = "date" THEN {ParseDate(cmd.date).dashes}
+    ELSE IF cfg.datefmt = "YYYY-MM-DD" THEN {TRUE}
+    ELSE IF cfg.datefmt = "YYYY/MM/DD" THEN {FALSE}
+    ELSE Allowed(ExDashes, PP, 0, TRUE)
+
+OpenNotationOK(line, cmd, cfg, PP, t) ==
+    LET v == ParseValue(Drop(line, Len(LeadBlank(line)))) IN
+    /\ v.ok /\ v.kind = "open"
+    /\ v.sh12 \in ClockAllowed(cmd, cfg, PP, t)
+    /\ v.spaced \in Allowed(ExSpaced, PP, t, TRUE)
+    /\ v.nq \in Allowed(ExNq, PP, t, 1)
+HeadDateOK(A, cmd, cfg, PP) ==
+    LET h == HeadlineOf(A)
+        d == ParseDate(Take(h, FindIn(h, 1, SpTab) - 1))
+    IN  d.ok /\ d.dashes \in DashesAllowed(cmd, cfg, PP)
+NonBlank(A) == SelectSeq(A, LAMBDA x : x.text # "")
+
+(* style and notation of what a command added *)
+StyleOK(cmd, cfg, M, PP, P, Q) ==
+    LET inds(t) == Allowed(ExIndent, PP, t, "    ")
+        eols(t) == Allowed(ExEol, PP, t, LF)
+        newRec(A) == /\ NewRecordStyled(A, inds(0), eols(0))
+                     /\ HeadDateOK(A, cmd, cfg, PP)
+                     /\ cmd.op = "start" => Len(NonBlank(A)) >= 2 /\ OpenNotationOK(NonBlank(A)[2].text, cmd, cfg, PP, 0)
+        newEntry(A, t) == /\ EntryBlockStyled(A, inds(t), eols(t))
+                          /\ cmd.op \in {"start", "switch"} => OpenNotationOK(A[1].text, cmd, cfg, PP, t)
+    IN
+    CASE cmd.op \in {"track", "start", "create"} \/ (cmd.op = "pause" /\ ~cmd.extend) ->
+            IF BlankOnly(P) THEN newRec(Q)
+            ELSE \E A \in AddedBlocks(P, Q) : IF M.kind = "create" \/ M.t = 0 THEN newRec(A) ELSE newEntry(A, M.t)
+      [] cmd.op = "stop" ->
+            LET lc == Loc(PP, M.t, M.i)
+                ind == PP.recs[M.t].indent
+                q == Q[lc.f].text
+                te == FindIn(q, lc.e.qFrom, SpTab)
+                tm == ParseTime(Mid(q, lc.e.qFrom, te - 1))
+            IN  /\ tm.ok /\ tm.h12 \in ClockAllowed(cmd, cfg, PP, M.t)
+                /\ \E A \in AddedAfterReplace(P, Q, lc, lc.la) :
+                      \A j \in 1..Len(A) : A[j].eol \in eols(M.t) /\ StartsWith(A[j].text, ind \o ind)
+      [] cmd.op = "switch" ->
+            LET lc == Loc(PP, M.t, M.i)
+                q == Q[lc.f].text
+                te == FindIn(q, lc.e.qFrom, SpTab)
+                tm == ParseTime(Mid(q, lc.e.qFrom, te - 1))
+            IN  /\ tm.ok /\ tm.h12 \in ClockAllowed(cmd, cfg, PP, M.t)
+                /\ \E A \in AddedAfterReplace(P, Q, lc, Len(P)) : A # <<>> /\ newEntry(A, M.t)
+      [] OTHER -> TRUE
+
 =============================================================================
